@@ -131,9 +131,43 @@ def shape_ruby(v):
   return d
 
 
-SHAPES = {"ruby": shape_ruby, "nested": shape_nested, "regions": shape_regions, "display": shape_display, "background": shape_background}
+def shape_rubyparts(v):
+  """rubies whose parts have their own timing (an annotation that is temporarily inactive), an rtc with delimiters, a part in another region"""
+  nid = _ids()
+  d = m.ContentDocument()
+  r1 = m.Region("r1", d); d.put_region(r1)
+  r2 = m.Region("r2", d); d.put_region(r2)
+  body = m.Body(d); body.set_id(nid()); d.set_body(body)
+  div = m.Div(d); div.set_id(nid()); div.set_region(r1); body.push_child(div)
+  p = m.P(d); p.set_id(nid()); p.set_begin(v("pb")); p.set_end(v("pe")); div.push_child(p)
+  s0 = m.Span(d); s0.set_id(nid()); p.push_child(s0); s0.push_child(m.Text(d, "lead"))
+  ruby = m.Ruby(d); ruby.set_id(nid()); p.push_child(ruby)
+  rb = m.Rb(d); rb.set_id(nid()); rb.set_begin(v("rbb")); rb.set_end(v("rbe"))
+  sb = m.Span(d); sb.set_id(nid()); sb.push_child(m.Text(d, "base")); rb.push_child(sb)
+  rt = m.Rt(d); rt.set_id(nid()); rt.set_begin(v("rtb")); rt.set_end(v("rte"))
+  st = m.Span(d); st.set_id(nid()); st.push_child(m.Text(d, "ann")); rt.push_child(st)
+  ruby.push_children([rb, rt])
+  p2 = m.P(d); p2.set_id(nid()); div.push_child(p2)
+  ruby2 = m.Ruby(d); ruby2.set_id(nid()); p2.push_child(ruby2)
+  rbc = m.Rbc(d); rbc.set_id(nid()); rb2 = m.Rb(d); rb2.set_id(nid()); sb2 = m.Span(d); sb2.set_id(nid()); sb2.push_child(m.Text(d, "B")); rb2.push_child(sb2)
+  rbc.push_child(rb2)
+  rtc = m.Rtc(d); rtc.set_id(nid()); rtc.set_begin(v("rtcb")); rtc.set_end(v("rtce"))
+  rp1 = m.Rp(d); rp1.set_id(nid()); rp1.set_end(v("rp1e")); sp1 = m.Span(d); sp1.set_id(nid()); sp1.push_child(m.Text(d, "(")); rp1.push_child(sp1)
+  rt2 = m.Rt(d); rt2.set_id(nid()); rt2.set_begin(v("rt2b")); rt2.set_end(v("rt2e"))
+  st2 = m.Span(d); st2.set_id(nid()); st2.push_child(m.Text(d, "T")); rt2.push_child(st2)
+  rp2 = m.Rp(d); rp2.set_id(nid()); sp2 = m.Span(d); sp2.set_id(nid()); sp2.push_child(m.Text(d, ")")); rp2.push_child(sp2)
+  rtc.push_children([rp1, rt2, rp2])
+  rtc2 = m.Rtc(d); rtc2.set_id(nid()); rtc2.set_region(r2)
+  rt3 = m.Rt(d); rt3.set_id(nid()); st3 = m.Span(d); st3.set_id(nid()); st3.push_child(m.Text(d, "U")); rt3.push_child(st3)
+  rtc2.push_children([rt3])
+  ruby2.push_children([rbc, rtc, rtc2])
+  return d
+
+
+SHAPES = {"rubyparts": shape_rubyparts, "ruby": shape_ruby, "nested": shape_nested, "regions": shape_regions, "display": shape_display, "background": shape_background}
 # which of the timing variables are present (None otherwise); a few masks per shape keep the path count moderate
 MASKS = {
+  "rubyparts": [("rtb", "rte", "pb"), ("rbb", "rbe", "rtb"), ("rtcb", "rtce", "rt2b"), ("rp1e", "rt2b", "rt2e"), ("pe", "rte", "rbe", "rtce")],
   "nested": [("bb", "be", "pb", "pe"), ("db", "de", "s1b", "s1e"), ("pb", "pe", "s3b", "s3e"), ("be", "de", "pe", "s1e", "s3e"), ("bb", "db", "pb", "s1b", "s3b"),
              ("s1b", "s3b", "s3e"), ("db", "s1e", "s3e")],
   "regions": [("r1b", "r1e", "p1b", "p1e"), ("d2b", "d2e", "p3e"), ("r3b", "r1e", "d2e", "p1e"), ("r1b", "d2b", "p1b", "p3e")],
